@@ -79,10 +79,7 @@ func c11RunBatches(ctx *core.Ctx, d interface {
 	prof := &gen.Profile{NullProb: []float64{0.1, 0.5}[r.Intn(2)], MaxLen: 1 + r.Intn(5), SmallDomain: r.Intn(2) == 0}
 	if long { // rows longer than the buffer: the buffer doubles (once or twice)
 		n = 1 + r.Intn(6)
-		prof.LongLists, prof.NullProb = true, 0.1
-		if r.Intn(2) == 0 {
-			prof.MaxLen = []int{1100, 2500}[r.Intn(2)]
-		}
+		prof.LongLists, prof.NullProb = true, 0.1 // one scalar slice per row gets 513-2100 elements
 	}
 	rows := e.NewRows(n)
 	gen.FillRows(r, rows, prof)
@@ -313,7 +310,7 @@ func c11Bucket(n int) string {
 }
 
 func RunC11Batches(ctx *core.Ctx) {
-	ctx.SetRule("catalogue struct types x random rows (1..2100 rows, lists of 0..5 elements; one case in four: 1..6 rows with lists of 513..2500 elements, longer than the 1024-value buffer) x source kind {GenericBuffer (one page per column: reads fill the buffer), file row groups under a random configuration (reads end at the source's pages), two row-range views per file row group} -> WriteRowGroup into a writer with PageBufferSize(1), verbatim copy disabled; per column the values per output data page = batches of copyColumnValues; non-trivial = a repeated column with more than 1024 values")
+	ctx.SetRule("catalogue struct types x random rows (1..2100 rows, lists of 0..5 elements; one case in four: 1..6 rows with one list of 513..2100 elements per row, up to more than twice the 1024-value buffer) x source kind {GenericBuffer (one page per column: reads fill the buffer), file row groups under a random configuration (reads end at the source's pages), two row-range views per file row group} -> WriteRowGroup into a writer with PageBufferSize(1), verbatim copy disabled; per column the values per output data page = batches of copyColumnValues; non-trivial = a repeated column with more than 1024 values")
 	per := ctx.Scale(2, 6)
 	var wg sync.WaitGroup
 	sem := make(chan struct{}, 16)
